@@ -145,6 +145,9 @@ func (s *Sim) Addr(i int) sdk.Address { return Addr(s.Keys[i]) }
 
 func memCodec() *codec.Codec { return app.Codec() }
 
+// Codec returns the application codec.
+func Codec() *codec.Codec { return app.Codec() }
+
 // Logger is a nop logger unless VERIF_LOG is set (debugging).
 func Logger() log.Logger {
 	if os.Getenv("VERIF_LOG") != "" {
